@@ -14,7 +14,7 @@ def ArbP (P : Arbiter → Prop) (s : State) : Prop := P s.a
 structure ArbStableC (P : Arbiter → Prop) : Prop where
   stopping : ∀ a, P a → P { a with stopping := true }
   restarting : ∀ a, P a → P { a with restarting := true, stopping := true }
-  unrestarting : ∀ a, P a → P { a with restarting := false, stopping := false }   -- the failed arbiter restart (fix 273f512)
+  unrestarting : ∀ a b, P a → P { a with restarting := false, stopping := b }   -- the failed arbiter restart (fix 273f512: the flag found on entry is restored)
   loopStop : ∀ a b, P a → P { a with loopStop := b }
   socketEvent : ∀ a b, P a → P { a with socketEvent := b }
   sockReady : ∀ a b, P a → P { a with sockReady := b }
@@ -59,7 +59,7 @@ theorem arbPLeafXC (P : Arbiter → Prop) (S : ArbStableC P) : LeafXC (ArbP P) w
   armTop := fun _ => arbP_same fun _ => rfl
   setStopping := arbP_modA _ S.stopping
   setRestarting := arbP_modA _ S.restarting
-  clearRestarting := arbP_modA _ S.unrestarting
+  clearRestarting := fun b => arbP_modA _ (fun a => S.unrestarting a b)
   setLoopStop := fun b => arbP_modA _ (fun a => S.loopStop a b)
   setSocketEvent := fun b => arbP_modA _ (fun a => S.socketEvent a b)
   setSockReady := fun b => arbP_modA _ (fun a => S.sockReady a b)
@@ -89,7 +89,7 @@ theorem arbPLeafX (P : Arbiter → Prop) (S : ArbStable P) : LeafX (ArbP P) :=
   { arbPLeafXC P S.toArbStableC with setClosed := arbP_modA _ S.closed }
 
 theorem socketsStableC (c p : Bool) : ArbStableC (fun a => a.ctlClosed = c ∧ a.pubClosed = p) :=
-  ⟨fun _ h => h, fun _ h => h, fun _ h => h, fun _ _ h => h, fun _ _ h => h, fun _ _ h => h, fun _ _ _ h => h, fun _ _ h => h⟩
+  ⟨fun _ h => h, fun _ h => h, fun _ _ h => h, fun _ _ h => h, fun _ _ h => h, fun _ _ h => h, fun _ _ _ h => h, fun _ _ h => h⟩
 
 theorem validateExecute_never_closes (cmd : String) (props : JVal) (s : State) :
     (validateExecute cmd props s).2.a.ctlClosed = s.a.ctlClosed ∧ (validateExecute cmd props s).2.a.pubClosed = s.a.pubClosed :=
